@@ -57,10 +57,16 @@ def gen_props(r):
     if c < 0.22:
         return None
     notes = []
+    seen = set()
     for _ in range(1 if r.random() < 0.8 else 2):
         props = []
         pool = [FEATURE_1_AND] * 4 + [ISA_1_NEEDED] * 3 + [FEATURE_2_USED] * 2 + [ISA_1_USED, GNU_1_NEEDED, GENERIC_AND]
+        # the same type twice in one object is left open by the statement (GNU ld ORs them): rare
+        dup_ok = r.random() < 0.15
         for t in sorted(set(r.choice(pool) for _ in range(r.choice([1, 1, 2, 3, 4])))):
+            if t in seen and not dup_ok:
+                continue
+            seen.add(t)
             if t == FEATURE_1_AND:
                 v = r.choice([1, 2, 3, 3, 3, 0, 7, 0xf])
             elif t == ISA_1_NEEDED:
